@@ -497,6 +497,25 @@ func seqSet(s *simrt.Sim) {
 			if err != nil || n != len(b) || !eq(got, model) {
 				bad("Encode-Decode", "round trip of %v: %d bytes, Decode read %d err=%v -> %v", model, len(b), n, err, got)
 			}
+			// the same contents as a set of one-byte elements (an entry is then a single byte on the wire: the element, and a
+			// value that encodes to nothing)
+			small := ds.NewSet[uint8]()
+			for _, e := range model {
+				small.Add(uint8(e))
+			}
+			sb, err := small.Encode(serix.DefaultAPI)
+			if err != nil {
+				bad("Encode", "Encode of the uint8 set %v: %v", model, err)
+			}
+			freshSmall := ds.NewSet[uint8]()
+			n, err = freshSmall.Decode(serix.DefaultAPI, sb)
+			var gotSmall []E
+			for _, e := range freshSmall.ToSlice() {
+				gotSmall = append(gotSmall, E(e))
+			}
+			if err != nil || n != len(sb) || !eq(gotSmall, model) {
+				bad("Encode-Decode:one-byte-elements", "round trip of the uint8 set %v: %d bytes %x, Decode read %d err=%v -> %v", model, len(sb), sb, n, err, gotSmall)
+			}
 		case 18:
 			view = set.ReadOnly()
 			s.Logf("ReadOnly")
